@@ -132,7 +132,7 @@ def make_feature(feat: str):
 	return match
 
 
-def make_di(root_entry: Any, table: list[tuple[str, list[tuple[str, str]]]], fallback: tuple[str, str] | None) -> Any:
+def make_di(root_entry: Any, table: list[tuple[str, list[tuple[str, str]]]], fallback: tuple[str, str] | None, mapping: list[tuple[str, str, list[str]]] | None = None) -> Any:
 	from rogw.tranp.lang.di import DI
 	from rogw.tranp.lang.locator import Invoker, Locator
 	from rogw.tranp.module.types import ModulePath
@@ -149,9 +149,14 @@ def make_di(root_entry: Any, table: list[tuple[str, list[tuple[str, str]]]], fal
 		return type(name, (Node,), {'match_feature': classmethod(lambda cls, via: f(via))})
 
 	symbols: dict[type, list[str]] = {}
-	for sym, clss in table:
-		for name, feat in clss:
-			symbols[mk_class(name, feat)] = [sym]
+	if mapping is not None:
+		# SymbolMapping.symbols as the real one: class -> its symbols, in class order (one class may serve several symbols)
+		for name, feat, syms in mapping:
+			symbols[mk_class(name, feat)] = list(syms)
+	else:
+		for sym, clss in table:
+			for name, feat in clss:
+				symbols[mk_class(name, feat)] = [sym]
 	fb = mk_class(*fallback) if fallback else None
 	di = DI()
 	di.bind(Locator, lambda: di)
@@ -185,7 +190,33 @@ def gen_table(rng: random.Random, tags: list[str]) -> tuple[list[tuple[str, list
 			# placed on leaf-only tags below)
 			clss.append((cname(), 'always'))
 			table.append((t, clss))
+	# one class registered for several symbols (as the real symbol_mapping does): the class keeps its place in class order,
+	# so it lands in the other symbol's list by its number — always before that list's closing `always` class
+	number = lambda c: int(c[0][1:])
+	for _ in range(rng.choice([0, 1, 2, 4])):
+		if len(table) < 2:
+			break
+		(_, src), (_, dst) = rng.sample(table, 2)
+		c = rng.choice(src)
+		if c not in dst and number(c) < number(dst[-1]):
+			dst.append(c)
+			dst.sort(key=number)
 	return table, fallback
+
+
+def mapping_of(table: list[tuple[str, list[tuple[str, str]]]]) -> list[tuple[str, str, list[str]]]:
+	"""The SymbolMapping.symbols dict behind per-symbol class lists: class (in class order) -> its symbols (in table order)."""
+	classes: dict[tuple[str, str], list[str]] = {}
+	for sym, clss in table:
+		for c in clss:
+			classes.setdefault(c, []).append(sym)
+	return [(n, f, classes[(n, f)]) for n, f in sorted(classes, key=lambda c: int(c[0][1:]))]
+
+
+def tableload_line(mapping: list[tuple[str, str, list[str]]], fallback: tuple[str, str] | None) -> str:
+	spec = ';'.join(f"{n}:{f}@{','.join(syms)}" for n, f, syms in mapping)
+	fb = f'{fallback[0]}:{fallback[1]}' if fallback else 'none'
+	return f'tableload\t{spec}\t{fb}'
 
 
 def table_line(table: list[tuple[str, list[tuple[str, str]]]], fallback: tuple[str, str] | None) -> str:
@@ -404,12 +435,20 @@ def case_random(rng: random.Random, max_depth: int, max_width: int) -> tuple[dic
 	root = EntryOfDict(t)
 	tags = ['root', '__empty__', *trees.TAG_POOL]
 	table, fallback = gen_table(rng, tags)
-	di = make_di(root, table, fallback)
+	mapping = mapping_of(table)
+	di = make_di(root, table, fallback, mapping)
 	finder = shared_finder()
 	pf = finder.full_pathfy(root)
 	nodes = di.resolve(Query[Node])
 	resolver = di.resolve(NodeResolver)
-	ops: list[list[str]] = [['tree', trees.dict_sexp(t)], table_line(table, fallback).split('\t'), ['pathfy']]
+	# the model either gets the SymbolMapping as the real Resolver.load does (class order) or the per-symbol lists derived here
+	derived: dict[str, list[tuple[str, str]]] = {}
+	for cn, cf, syms in mapping:
+		for sym in syms:
+			derived.setdefault(sym, []).append((cn, cf))  # symbols in first-registration order, classes in class order
+	tline = tableload_line(mapping, fallback) if rng.random() < 0.6 else table_line(list(derived.items()), fallback)
+	ops: list[list[str]] = [['tree', trees.dict_sexp(t)], tline.split('\t'), ['accepts'], ['pathfy']]
+	ops += [['canresolve', tg] for tg in rng.sample(tags, 3)]
 	paths = list(pf.keys())
 	sample = paths if len(paths) <= 24 else rng.sample(paths, 24)
 	for p in sample:
@@ -446,13 +485,23 @@ def case_random(rng: random.Random, max_depth: int, max_width: int) -> tuple[dic
 		lines.append('\t'.join(op))
 		if op[0] == 'tree':
 			real.append(f'ok {trees.entry_size(root)}')
-		elif op[0] == 'table':
+		elif op[0] in ('table', 'tableload'):
 			real.append('ok')
+		elif op[0] == 'accepts':
+			try:
+				real.append('ok ' + ','.join(resolver._NodeResolver__resolver.accepts))
+			except Exception as e:  # noqa: BLE001
+				real.append(exc_enum(e))
+		elif op[0] == 'canresolve':
+			try:
+				real.append(str(resolver.can_resolve(op[1])).lower())
+			except Exception as e:  # noqa: BLE001
+				real.append(exc_enum(e))
 		elif op[0] == 'clear':
 			resolver.clear()
 			# Nodes memoises parent/children lists of node *instances*; a fresh Nodes is the faithful counterpart of
 			# "no instance cache" on the model side, so `clear` rebuilds the query object as well
-			di = make_di(root, table, fallback)
+			di = make_di(root, table, fallback, mapping)
 			nodes = di.resolve(Query[Node])
 			resolver = di.resolve(NodeResolver)
 			real.append('ok')
@@ -885,6 +934,91 @@ def search_laws(ctx: Ctx) -> SearchResult:
 		earlier.append((name, root))
 		if len(res.samples) < 2:
 			res.samples.append({'tree': name, 'entries': len(walk), 'first_paths': [p for p, _ in walk[:5]]})
+	res.distinct = len(seen)
+	return res
+
+
+def own_class_choice(p: str, e: Any, mapping: list[tuple[str, str, list[str]]], fallback: tuple[str, str] | None) -> str:
+	"""The rule itself, from the tree walk alone: the classes the mapping lists for the entry's tag, in mapping order; the
+	first whose feature accepts; the fallback class only for a tag no class lists; else Errors.UnresolvedNode. A feature that
+	cannot be evaluated (parent tag of the root) raises out of the resolution."""
+	els = p.split('.')
+	kids = list(e.children) if e.has_child else []
+
+	def accepts(feat: str) -> bool:
+		if feat == 'always':
+			return True
+		if feat == 'never':
+			return False
+		if feat.startswith('cc>='):
+			return len(kids) >= int(feat[4:])
+		if feat == 'idx':
+			return els[-1].endswith(']')
+		if feat.startswith('d>='):
+			return len(els) >= int(feat[3:])
+		if feat.startswith('pt='):
+			if len(els) < 2:
+				raise IndexError('the root has no parent element')
+			return tag_of(els[-2]) == feat[3:]
+		if feat.startswith('fc='):
+			return len(kids) > 0 and kids[0].name == feat[3:]
+		raise AssertionError(feat)
+
+	cands = [(n, f) for n, f, syms in mapping if e.name in syms]
+	if not cands:
+		cands = [fallback] if fallback else []
+	try:
+		for n, f in cands:
+			if accepts(f):
+				return n
+	except IndexError:
+		return 'IndexError'
+	return 'Errors.UnresolvedNode'
+
+
+@guarded_search
+def search_class_choice(ctx: Ctx) -> SearchResult:
+	"""The class Nodes.by returns for every path of random trees under synthetic symbol mappings (classes shared between
+	symbols, tags only the fallback serves, tags nothing serves) against the first-accepting-class rule evaluated on the
+	tree walk alone, in random query orders with repeats on one Nodes instance."""
+	from rogw.tranp.syntax.ast.entry import EntryOfDict
+	from rogw.tranp.syntax.ast.query import Query
+	from rogw.tranp.syntax.node.node import Node
+
+	rng = ctx.sub_rng('class-choice')
+	res = SearchResult('class per path vs the first-accepting-class-in-mapping-order rule on the tree walk (synthetic mappings, random query orders)')
+	seen = set()
+	dl = Deadline(ctx, 'search_class_choice', 20, 180)
+	tags = ['root', '__empty__', *trees.TAG_POOL]
+	for i in range(ctx.scale(60, 800)):
+		if dl.over():
+			break
+		t = trees.gen_dict_tree(rng, 2 + i % 4, 2 + i % 5)
+		root = EntryOfDict(t)
+		walk = trees.walk_entries(root)
+		table, fallback = gen_table(rng, tags)
+		mapping = mapping_of(table)
+		nodes = make_di(root, table, fallback, mapping).resolve(Query[Node])
+		order = [*walk, *rng.sample(walk, min(10, len(walk)))]
+		rng.shuffle(order)
+		bad = None
+		for k, (p, e) in enumerate(order[:60]):
+			want = own_class_choice(p, e, mapping, fallback)
+			try:
+				with Budget():
+					got = type(nodes.by(p)).__name__
+			except Exception as ex:  # noqa: BLE001 - including CaseTimeout
+				got = exc_enum(ex)
+			if got != want:
+				bad = f'Nodes.by({p}) is {got} after {k} earlier queries; the mapping lists {[(n, f) for n, f, syms in mapping if e.name in syms]} for the tag {e.name} (fallback {fallback}), so the rule says {want}'
+				break
+		res.cases += 1
+		seen.add(trees.dict_sexp(t))
+		if bad:
+			res.findings.append(Finding(key='class-choice', what=bad, replay={'sexp': trees.dict_sexp(t), 'mapping': mapping, 'fallback': fallback, 'order': [p for p, _ in order[:60]]}))
+			break
+		if len(res.samples) < 2:
+			res.samples.append({'entries': len(walk), 'classes': len(mapping), 'fallback': bool(fallback)})
 	res.distinct = len(seen)
 	return res
 
@@ -1549,6 +1683,8 @@ STATEMENTS = {
 	'conforming_depth': 'a tree that conforms to a child relation without three directly nested unresolvable tags above a further entry (ChainFree) has uheight <= 2 at every entry — any relation, any resolvable-tag set',
 	'grammar_chain_free': 'decided over the GENERATED child table of data/grammar.lark (lark compiled rules: inlining of _rules and single-child ?rules, filtered tokens, placeholders, aliases) and the GENERATED symbol_mapping() tags: no three tree tags without a node class nest directly above a further entry',
 	'expand_spec_full_grammar': 'expand_spec_full with neither the string-level nor the depth hypothesis: for every tree rooted at the start symbol that conforms to the generated child table, under any table resolving at least the shipped tags, Nodes.expand(via) (paths before resolution) = nearest resolvable descendants + terminals without a resolvable ancestor, at every entry path',
+	'load_resolve': 'Resolver.load(mapping).resolve(symbol) = the classes whose symbol list names the symbol, in the order of mapping.symbols (a class may serve several symbols); without any the fallback class; without fallback Errors.UnresolvedNode — every mapping, every symbol',
+	'load_can_resolve': 'can_resolve(symbol) after load = some class of the mapping lists the symbol (the fallback does not count)',
 	'resolve_list_order': 'resolving a list of paths (children / siblings / expand results) gives the same classes from every reachable instance cache as from the empty one',
 	'memo_keys_injective': 'the memo keys GENERATED from query.py determine the query: same key => same query (ancestor.{via}#{tag}: for via free of #)',
 	'memo_transparent': 'on one Nodes instance, after any history of queries (memoised or not, failing or not) every query returns what the memo-free evaluation on a fresh resolver returns, for every world (Memoize.get keeps the first factory per key; keys generated from the source)',
@@ -1575,7 +1711,7 @@ def run(ctx: Ctx) -> int:
 	with ctx.timed('correspondence'):
 		streams = [stream_corpus(ctx), stream_path_algebra(ctx), stream_random(ctx), stream_real(ctx), stream_shape(ctx)]
 	with ctx.timed('search'):
-		searches = [search_laws(ctx), search_dsn(ctx), search_queries(ctx), search_expand(ctx), search_expand_real(ctx), search_resolve_order(ctx)]
+		searches = [search_laws(ctx), search_dsn(ctx), search_class_choice(ctx), search_queries(ctx), search_expand(ctx), search_expand_real(ctx), search_resolve_order(ctx)]
 	if ALPHABET_MISSES and translate_ok:
 		# a real parse tree carries a name the generated alphabet does not list: the tie behind expand_spec_grammar is broken
 		translate_ok, translate_msg = False, f'entry names of real parse trees outside Generated/TagAlphabet.lean: {sorted(ALPHABET_MISSES)[:10]}'
@@ -1596,7 +1732,7 @@ def run(ctx: Ctx) -> int:
 				'(expand_relativefy_counterexample, expand_depth3_counterexample: latent, synthetic tag sets only); the depth hypothesis is discharged for the shipped grammar and symbol mapping as well '
 				'(expand_depth_bounded, conforming_depth, grammar_chain_free decided over the generated child table and resolvable tags, expand_spec_full_grammar: expand = the uncapped tree computation on every conforming tree); '
 				'ASTFinder.find / exists report full paths of the whole tree below any base path, for every tester and depth, and agree with group_by (find_spec, find_sound, find_complete, find_agrees_group_by, finder_exists); '
-				'the node class is independent of earlier queries (resolve_order, resolve_order_queries, resolve_list_order) and the query memo of Nodes is transparent for every history (memo_keys_injective over the generated keys, memo_transparent; memo_key_counterexample for via containing #) — all on the model, for all trees / worlds',
+				'the candidate classes of a symbol are those the mapping lists for it, in mapping order (load_resolve, load_can_resolve); the node class is independent of earlier queries (resolve_order, resolve_order_queries, resolve_list_order) and the query memo of Nodes is transparent for every history (memo_keys_injective over the generated keys, memo_transparent; memo_key_counterexample for via containing #) — all on the model, for all trees / worlds',
 			'correspondence_only': 'the EntryPath algebra and the DSN functions on malformed strings and with delimiters other than "." (stream path-algebra); the Memo/Memoize semantics (first factory kept, exception not cached) as modelled in Model/NodesMemo.lean; the real match_feature functions are pure functions of (tree, path) — validated by query permutations on real modules; '
 				'the reading of lark\'s tree builder in translate/gen_grammar_children.py (inlining, filtered tokens, placeholders) — tied by the conformance check on real parse trees and the stream grammar-shape; '
 				'match_feature implementations that call back into Nodes fill the real memo / instance cache with extra entries the model does not create (observationally equal by memo_transparent)',
